@@ -438,6 +438,8 @@ class Interp:
             return list(it)
         if isinstance(it, dict):
             return list(it.keys())
+        if isinstance(it, PyNative):
+            return list(it)
         if isinstance(it, (set, frozenset)):
             raise AnalysisError("absint: iteration over a set (order not defined)")
         raise AnalysisError(f"absint: cannot iterate {type(it).__name__}")
@@ -540,6 +542,8 @@ class Interp:
                 if m is not None:
                     return self.call_f(m, [x])
             raise AnalysisError(f"absint: str() of {x.cls}, which has no __repr__ (the text would contain an address)")
+        if isinstance(x, PyNative):
+            return str(x)
         if isinstance(x, (list, tuple)):
             inner = ", ".join(self.to_str(i) if isinstance(i, Node) else repr(i) for i in x)
             return f"[{inner}]" if isinstance(x, list) else f"({inner}{',' if len(x) == 1 else ''})"
@@ -650,6 +654,12 @@ class Interp:
 
                     return _PyCall(_repl)
                 raise AnalysisError(f"absint: {base.cls} has no attribute {e.attr}")
+            if isinstance(base, PyNative):
+                try:
+                    v_ = getattr(base, e.attr)
+                except AttributeError:
+                    raise Raised(f"AttributeError: {type(base).__name__}.{e.attr}")
+                return _PyCall(v_) if callable(v_) and not isinstance(v_, PyNative) else v_
             if isinstance(base, (int, float, complex)) and not isinstance(base, bool) and e.attr in ("real", "imag"):
                 return getattr(base, e.attr)
             if base is dict and e.attr == "fromkeys":
@@ -1007,6 +1017,10 @@ class _Lam:
 
 
 _MISSING = object()
+
+
+class PyNative:
+    """Marker base class: instances are used natively by the interpreter (attributes, subscripts, iteration, str)."""
 
 
 class _ModRef:
